@@ -179,6 +179,10 @@ def _l141_body(kind, maxit, declared, present):
             if rope.isrope(v):
                 check(got <= rope.sx_len(body), 'returned bytes never exceed the bytes present')
     check(st.tell() <= total, 'position stays inside the stream')
+    if ok:
+        # progress: the measure of the induction over the remaining bytes.  A reader that can leave the position before
+        # the end of its own length prefix lets an enclosing container decode the same bytes again and again
+        check(st.tell() >= rope.sx_len(lenenc.getvalue()), 'a successful read moves the position forward, past its own length prefix')
 
 
 def replay_l141(cfg, m):
@@ -225,14 +229,16 @@ def replay_l141(cfg, m):
         s.MAX_ARRAY_LENGTH, s.MAX_BYTES_LENGTH = saved_limits
     declared = m.get('declared_len', 0)
     over = ok and declared > limit
-    return hung or over or calls[0] > 60 * present + 200, 'calls=%s present=%d declared=%d (limit %d) content=%d bytes decoded=%s' % (
-        '>200000 (does not terminate)' if hung else calls[0], present, declared, limit, m.get('content_len', 0), ok)
+    pos = st.tell()
+    badpos = pos > len(st.getvalue()) or (ok and pos < len(st0.getvalue()))
+    return hung or over or badpos or calls[0] > 60 * present + 200, 'calls=%s present=%d declared=%d (limit %d) content=%d bytes decoded=%s position=%d of %d (length prefix %d bytes)' % (
+        '>200000 (does not terminate)' if hung else calls[0], present, declared, limit, m.get('content_len', 0), ok, pos, len(st.getvalue()), len(st0.getvalue()))
 
 
 R.add('L14.1', l141, lambda tier: [dict(kind=k, maxit=(3 if tier == 'quick' else 6)) for k in CONTAINERS] + [dict(kind=k, maxit=3, lowlimit=True) for k in CONTAINERS],
       replay=replay_l141, desc='container readers: loop count and reads bounded by bytes present, declared lengths capped',
       expect=['loop count bounded by the elements present, not the declared length', 'position stays inside the stream',
-              'declared length above the limit is refused'],
+              'declared length above the limit is refused', 'a successful read moves the position forward, past its own length prefix'],
       bounds='declared length any 41-bit signed int; <= 3 (thorough 6) elements present; opaque content of any length',
       step_limit=5000)
 
